@@ -138,6 +138,14 @@ def fork_map(fn, tasks, nworkers, timeout_s):
 
 # --------------------------------------------------------------------------- executing runs
 
+def prepare(scn, L):
+    """Called by every worker process before it executes its first run (the process is still pristine): scenarios that use the
+    `fresh` oracle get their pristine-process evaluator now (lsim/fresh.py)."""
+    if getattr(scn, 'uses_fresh', False):
+        from . import fresh
+        fresh.start(L, scn.make_fns() if hasattr(scn, 'make_fns') else scn.fns)
+
+
 def execute_run(scn, L, run):
     """-> json-able result dict"""
     res = scn.execute(L, run)
@@ -174,6 +182,7 @@ def chunk_worker(task):
     from . import scenarios
     L = load_lentil()
     scn = scenarios.get(task.scn_name, task.prop)
+    prepare(scn, L)
     agg = {'probes': {}, 'faults': {}, 'steps': 0, 'runs': 0, 'hists': [], 'viol': {},
            'states': set(), 'schedules': set(), 'samples': [], 'audit': {}, 'oracle_checks': {}}
     for j, i in enumerate(task.indices):
@@ -210,6 +219,7 @@ def cold_worker(task):
     from . import scenarios
     L = load_lentil()
     scn = scenarios.get(task['scn'], task['prop'])
+    prepare(scn, L)
     run = make_run(scn, task['prop'], task['verif_seed'], task['index'])
     res = scn.execute(L, run)
     return res['hist']
@@ -234,6 +244,7 @@ def _chunk_probe(task):
     from . import scenarios
     L = load_lentil()
     scn = scenarios.get(task['scn'], task['prop'])
+    prepare(scn, L)
     return chunk_fails(scn, L, task['runs'], task['key'])
 
 
@@ -267,6 +278,7 @@ def replay_file(prop, path):
         return replay_coldwarm(prop, data)
     if data.get('kind') == 'chunk':
         scn = scenarios.get(data['scenario'], data.get('property', prop))
+        prepare(scn, L)
         want = data['violation']
         res = None
         for r in data['runs']:
@@ -274,6 +286,7 @@ def replay_file(prop, path):
         keys = [vkey(v['oracle'], v['sig']) for v in res['violations']] if res else []
         return vkey(want['oracle'], want['sig']) in keys, (res['violations'] if res else [])
     scn = scenarios.get(data['scenario'], data.get('property', prop))
+    prepare(scn, L)
     res = scn.execute(L, data)
     want = data.get('violation')
     keys = [vkey(v['oracle'], v['sig']) for v in res['violations']]
@@ -289,6 +302,7 @@ def replay_coldwarm(prop, data):
     # the cold execution first, in a fork taken while this process has not executed anything yet
     cold = fork_map(cold_worker, [{'scn': data['scenario'], 'prop': data['property'],
                                    'verif_seed': data['verif_seed'], 'index': data['index']}], 1, 300)[0]
+    prepare(scn, L)
     hist = None
     for i in data['warm_indices'] + [data['index']]:
         run = make_run(scn, data['property'], data['verif_seed'], i)
